@@ -12,9 +12,11 @@
 
   How the Rust state is represented
   * a `u64` / `u32` is a `Nat` below `2^64` / `2^32`.  The crate is built with overflow checks off (its Cargo.toml
-    says so for every profile), so `+ - *` wrap: `add64`, `sub64`, `mul64`, `add32`, … .  `a << s` loses the bits
-    shifted out (`shl64`, `shl32`); `a >> s` is `>>>`; every shift amount is a literal below the width.
-    `a & m` is `&&&`.
+    switches them off for the dev profile, and they are off by default in release), so `+ - *` wrap: `add64`, `sub64`,
+    `mul64`, `add32`, … .  The one place where the code relies on that is the `u64` subtraction of the bias,
+    `((x.w[1] & MASK_EXP) >> 49) - 6176` (lines 71, 91), which goes below zero for every negative exponent and is put
+    right by the `as i32` that follows.  `a << s` loses the bits shifted out (`shl64`, `shl32`); `a >> s` is `>>>`;
+    every shift amount is a literal below the width.  `a & m` is `&&&`.
   * an `i32` is an `Int` kept in range by `wrapI32`; `v as i32` for an unsigned `v` is `asI32 v` (low 32 bits read as
     two's complement), `v as u32` / `v as usize` for an `i32` are `i32AsU32` / `i32AsUsize` (a negative index becomes
     a huge one and the table access panics), `>>` on an `i32` is the arithmetic shift `Int.shiftRight`.
@@ -34,6 +36,14 @@
     the magnitude (`i32ToString`); it is the only step that is not transcribed from the crate's own source.
   * the `while Tmp > 0` loop of lines 137–146 is a recursion with fuel; `Tmp` is shifted right by six bits in every
     round, so a `u64` is exhausted after 11 rounds and the fuel (64) cannot run out before `Tmp` does.
+  * statements that the Rust source repeats verbatim are written once: `reduce1000` (lines 31–40 of `__l0_split_midi_2`
+    = lines 56–65 of `__l0_split_midi_3`), `splitTento9` (lines 73–82 of `__l1_split_midi_6` = lines 95–104 of
+    `__l1_split_midi_6_lead`).  A function that updates two variables returns the pair.
+
+  `fmtCode` is the three-way branch of `bid128_to_string` (line 49 special → `fmtSpecial`, line 62 all-zero coefficient
+  field → `fmtZero`, else → `fmtFinite`); `fmtFinite` is: unpack (lines 82–94), the coefficient (`writeCoeffOf`: the
+  "print `0`" test of lines 99–101, else `coeffMidi` = limb loop + millennial digits, `writeCoeff` = table look-ups),
+  the exponent (`writeExp`).  `fmtCodeOp` is the same under the harness's operation names.
 
   `none` = the code would panic.  The panic sites (none of which can fire, `C05Format.fmtCode_eq_format`):
     line 141 / 143 `MOD10_18_TBL[k_lcv][midi_ind as usize]` (row ≥ 9 or column ≥ 128),
@@ -128,54 +138,65 @@ def normalize10to18 (x_hi x_lo : Nat) : Nat × Nat :=
     (add64 x_hi 1, shl64 l0_tmp 4 >>> 4)                                   -- 17, 18
   else (x_hi, x_lo)
 
+/-- lines 31–40 of `__l0_split_midi_2`, and again (with `l0_mid` for `l0_head` and `l0_x` for `x`) lines 56–65 of
+`__l0_split_midi_3`, the same statements: `x` as `(l0_head, l0_tail)` -/
+def reduce1000 (x : Nat) : Nat × Nat :=
+  let l0_head := x >>> 10                                                              -- 31 / 56
+  let l0_tail := sub32 (add32 (x &&& 0x03FF) (shl32 l0_head 5)) (shl32 l0_head 3)      -- 32 / 57
+  let l0_tmp := l0_tail >>> 10                                                         -- 33 / 58
+  let l0_head := add32 l0_head l0_tmp                                                  -- 34 / 59
+  let l0_tail := sub32 (add32 (l0_tail &&& 0x03FF) (shl32 l0_tmp 5)) (shl32 l0_tmp 3)  -- 35 / 60
+  if l0_tail > 999 then (add32 l0_head 1, sub32 l0_tail 1000)                          -- 37–40 / 62–65
+  else (l0_head, l0_tail)
+
 /-- `__l0_split_midi_2(x, vec)` (lines 30–44): the new `vec` -/
 def splitMidi2 (x : Nat) (vec : List Nat) : List Nat :=
-  let l0_head := x >>> 10                                                              -- 31
-  let l0_tail := sub32 (add32 (x &&& 0x03FF) (shl32 l0_head 5)) (shl32 l0_head 3)      -- 32
-  let l0_tmp := l0_tail >>> 10                                                         -- 33
-  let l0_head := add32 l0_head l0_tmp                                                  -- 34
-  let l0_tail := sub32 (add32 (l0_tail &&& 0x03FF) (shl32 l0_tmp 5)) (shl32 l0_tmp 3)  -- 35
-  if l0_tail > 999 then                                                                -- 37
-    vec ++ [add32 l0_head 1] ++ [sub32 l0_tail 1000]                                   -- 38, 39, 42, 43
-  else
-    vec ++ [l0_head] ++ [l0_tail]                                                      -- 42, 43
+  let r := reduce1000 x                                                                -- 31–40
+  let l0_head := r.1
+  let l0_tail := r.2
+  vec ++ [l0_head] ++ [l0_tail]                                                        -- 42, 43
 
-/-- `__l0_split_midi_3(x, vec)` (lines 46–70): the new `vec` -/
-def splitMidi3 (x : Nat) (vec : List Nat) : List Nat :=
+/-- lines 47–54 of `__l0_split_midi_3`: `(l0_head, l0_x)` -/
+def head1e6 (x : Nat) : Nat × Nat :=
   let l0_x := x                                                                        -- 47
   let l0_head := mul32 (l0_x >>> 17) 34359 >>> 18                                      -- 48
   let l0_x := sub32 l0_x (mul32 l0_head 1000000)                                       -- 49
-  let (l0_x, l0_head) :=
-    if l0_x ≥ 1000000 then (sub32 l0_x 1000000, add32 l0_head 1) else (l0_x, l0_head)  -- 51–54
-  let l0_mid := l0_x >>> 10                                                            -- 56
-  let l0_tail := sub32 (add32 (l0_x &&& 0x03FF) (shl32 l0_mid 5)) (shl32 l0_mid 3)     -- 57
-  let l0_tmp := l0_tail >>> 10                                                         -- 58
-  let l0_mid := add32 l0_mid l0_tmp                                                    -- 59
-  let l0_tail := sub32 (add32 (l0_tail &&& 0x3FF) (shl32 l0_tmp 5)) (shl32 l0_tmp 3)   -- 60
-  if l0_tail > 999 then                                                                -- 62
-    vec ++ [l0_head] ++ [add32 l0_mid 1] ++ [sub32 l0_tail 1000]                       -- 63, 64, 67–69
-  else
-    vec ++ [l0_head] ++ [l0_mid] ++ [l0_tail]                                          -- 67–69
+  if l0_x ≥ 1000000 then (add32 l0_head 1, sub32 l0_x 1000000)                         -- 51–54
+  else (l0_head, l0_x)
+
+/-- `__l0_split_midi_3(x, vec)` (lines 46–70): the new `vec` -/
+def splitMidi3 (x : Nat) (vec : List Nat) : List Nat :=
+  let r := head1e6 x                                                                   -- 47–54
+  let l0_head := r.1
+  let l0_x := r.2
+  let r := reduce1000 l0_x                                                             -- 56–65
+  let l0_mid := r.1
+  let l0_tail := r.2
+  vec ++ [l0_head] ++ [l0_mid] ++ [l0_tail]                                            -- 67–69
 
 /-- lines 73–82 and 95–104, the same statements in `__l1_split_midi_6` and `__l1_split_midi_6_lead`: split the
 `u64` `x` into `(l1_x_hi, l1_x_lo)`, both `u32` -/
 def splitTento9 (x : Nat) : Nat × Nat :=
   let l1_xhi_64 := mul64 (x >>> 28) BID_INV_TENTO9 >>> 33                              -- 73 / 95
   let l1_xlo_64 := sub64 x (mul64 l1_xhi_64 BID_TENTO9)                                -- 74 / 96
-  let (l1_xlo_64, l1_xhi_64) :=
-    if l1_xlo_64 ≥ BID_TENTO9 then (sub64 l1_xlo_64 BID_TENTO9, add64 l1_xhi_64 1)     -- 76–79 / 98–101
-    else (l1_xlo_64, l1_xhi_64)
-  (asU32 l1_xhi_64, asU32 l1_xlo_64)                                                   -- 81, 82 / 103, 104
+  if l1_xlo_64 ≥ BID_TENTO9 then                                                       -- 76 / 98
+    (asU32 (add64 l1_xhi_64 1), asU32 (sub64 l1_xlo_64 BID_TENTO9))                    -- 77, 78, 81, 82 / 99, 100, 103, 104
+  else
+    (asU32 l1_xhi_64, asU32 l1_xlo_64)                                                 -- 81, 82 / 103, 104
 
 /-- `__l1_split_midi_6(x, vec)` (lines 72–86): the new `vec` -/
 def splitMidi6 (x : Nat) (vec : List Nat) : List Nat :=
-  let (l1_x_hi, l1_x_lo) := splitTento9 x                                              -- 73–82
+  let r := splitTento9 x                                                               -- 73–82
+  let l1_x_hi := r.1
+  let l1_x_lo := r.2
   splitMidi3 l1_x_lo (splitMidi3 l1_x_hi vec)                                          -- 84, 85
 
 /-- `__l1_split_midi_6_lead(x, vec)` (lines 88–126): the new `vec` -/
 def splitMidi6Lead (x : Nat) (vec : List Nat) : List Nat :=
   if x ≥ BID_TENTO9 then                                                               -- 94
-    let (l1_x_hi, l1_x_lo) := splitTento9 x                                            -- 95–104
+    let r := splitTento9 x                                                             -- 95–104
+    let l1_x_hi := r.1
+    let l1_x_lo := r.2
     if l1_x_hi ≥ BID_TENTO6 then                                                       -- 106
       splitMidi3 l1_x_lo (splitMidi3 l1_x_hi vec)                                      -- 107, 108
     else if l1_x_hi ≥ BID_TENTO3 then                                                  -- 109
@@ -252,8 +273,8 @@ def limbLoop : Nat → Nat → Nat → Nat → Nat → Option (Nat × Nat)
         | some b =>
           let LO_18Dig := add64 LO_18Dig b
           let k_lcv := k_lcv + 1                                                       -- 144
-          let (HI_18Dig, LO_18Dig) := normalize10to18 HI_18Dig LO_18Dig                -- 145
-          limbLoop fuel Tmp k_lcv HI_18Dig LO_18Dig
+          let r := normalize10to18 HI_18Dig LO_18Dig                                   -- 145
+          limbLoop fuel Tmp k_lcv r.1 r.2
     else some (HI_18Dig, LO_18Dig)
 
 /-- lines 129–153: the coefficient `C1` (neither zero nor non-canonical) as millennial digits `MiDi` -/
@@ -263,7 +284,9 @@ def coeffMidi (C1w0 C1w1 : Nat) : Option (List Nat) :=
   let Tmp := add64 Tmp (shl64 C1w1 5)                                                  -- 131
   match limbLoop 64 Tmp 0 0 LO_18Dig with                                              -- 132–146
   | none => none
-  | some (HI_18Dig, LO_18Dig) =>
+  | some r =>
+    let HI_18Dig := r.1
+    let LO_18Dig := r.2
     if HI_18Dig == 0 then                                                              -- 148
       some (splitMidi6Lead LO_18Dig [])                                                -- 149
     else
@@ -286,12 +309,8 @@ def writeCoeff (MiDi : List Nat) (fmt : Bytes) : Option Bytes :=
     | none => none
     | some fmt => writeMidis rest fmt                                                  -- 157–159
 
-/-- lines 162–201: `E`/`e`, the sign of the exponent and its one to four digits -/
-def writeExp (upperExp : Bool) (exp : Int) (fmt : Bytes) : Option Bytes :=
-  let fmt := writeChar fmt (if upperExp then 69 else 101)                              -- 163
-  let (exp, fmt) :=
-    if exp < 0 then (wrapI32 (-exp), writeChar fmt 45)                                 -- 164–166
-    else (exp, writeChar fmt 43)                                                       -- 168
+/-- lines 171–201: the one to four digits of the exponent's magnitude (`exp ≥ 0` here) -/
+def writeExpDigits (exp : Int) (fmt : Bytes) : Option Bytes :=
   let d0 := i32AsU32 (wrapI32 (exp * 0x418a) >>> 24)                                   -- 174
   let d123 := i32AsU32 (wrapI32 (exp - wrapI32 (1000 * asI32 d0)))                     -- 175
   if d0 != 0 then                                                                      -- 177
@@ -312,6 +331,65 @@ def writeExp (upperExp : Bool) (exp : Int) (fmt : Bytes) : Option Bytes :=
     let ind := asI32 (mul32 3 d123)                                                    -- 196
     writeTable BID_CHAR_TABLE3 ind 3 fmt                                               -- 197–199
 
+/-- lines 162–201: `E`/`e`, the sign of the exponent and its one to four digits -/
+def writeExp (upperExp : Bool) (exp : Int) (fmt : Bytes) : Option Bytes :=
+  let fmt := writeChar fmt (if upperExp then 69 else 101)                              -- 163
+  if exp < 0 then                                                                      -- 164
+    writeExpDigits (wrapI32 (-exp)) (writeChar fmt 45)                                 -- 165, 166, 171–201
+  else
+    writeExpDigits exp (writeChar fmt 43)                                              -- 168, 171–201
+
+/-- lines 51–61: `x` is a NaN or an infinity -/
+def fmtSpecial (w1 : Nat) : Bytes :=
+  if w1 &&& MASK_NAN == MASK_NAN then                                                  -- 51
+    if w1 &&& MASK_SNAN == MASK_SNAN then                                              -- 52
+      -- `(x.w[1] as BID_SINT64) < 0`: the top bit
+      if w1 ≥ 2 ^ 63 then [45, 83, 78, 97, 78] else [43, 83, 78, 97, 78]               -- 54  "-SNaN" "+SNaN"
+    else
+      if w1 ≥ 2 ^ 63 then [45, 78, 97, 78] else [43, 78, 97, 78]                       -- 57  "-NaN" "+NaN"
+  else
+    if w1 &&& MASK_SIGN == 0 then [43, 73, 110, 102] else [45, 73, 110, 102]           -- 60  "+Inf" "-Inf"
+
+/-- lines 63–79: the coefficient field and the low word are zero -/
+def fmtZero (upperExp : Bool) (w1 : Nat) : Bytes :=
+  let fmt : Bytes :=
+    if upperExp then (if w1 &&& MASK_SIGN == MASK_SIGN then [45, 48, 69] else [43, 48, 69])        -- 65  "-0E" "+0E"
+    else (if w1 &&& MASK_SIGN == MASK_SIGN then [45, 48, 101] else [43, 48, 101])                  -- 67  "-0e" "+0e"
+  let exp := asI32 (sub64 ((w1 &&& MASK_EXP) >>> 49) 6176)                             -- 71
+  let exp :=
+    if exp > (((0x5ffe >>> 1 : Nat) : Int) - 6176) then                                -- 73
+      wrapI32 (asI32 ((shl64 w1 2 &&& MASK_EXP) >>> 49) - 6176)                        -- 74
+    else exp
+  let fmt := if exp ≥ 0 then writeChar fmt 43 else fmt                                 -- 76–78
+  fmt ++ i32ToString exp                                                               -- 79
+
+/-- lines 96–160: the coefficient `C1` of `x` (`C1.w[1] = C1w1`, `C1.w[0] = x.w[0] = w0`) as text -/
+def writeCoeffOf (w0 w1 C1w1 : Nat) (fmt : Bytes) : Option Bytes :=
+  let C1w0 := w0
+  if C1w1 > 0x0001ed09bead87c0                                                         -- 99
+      || (C1w1 == 0x0001ed09bead87c0 && C1w0 > 0x378d8e63ffffffff)                     -- 100
+      || (w1 &&& 0x6000000000000000 == 0x6000000000000000)                             -- 101
+      || (C1w1 == 0 && C1w0 == 0) then
+    some (writeChar fmt 48)                                                            -- 102
+  else
+    match coeffMidi C1w0 C1w1 with                                                     -- 129–153
+    | none => none
+    | some MiDi => writeCoeff MiDi fmt                                                 -- 155–159
+
+/-- lines 81–201: `x` is neither special nor a zero with an all-zero coefficient field -/
+def fmtFinite (upperExp : Bool) (w0 w1 : Nat) : Option Bytes :=
+  let x_sign := w1 &&& MASK_SIGN                                                       -- 82
+  let x_exp := w1 &&& MASK_EXP                                                         -- 83
+  let x_exp :=
+    if w1 &&& 0x6000000000000000 == 0x6000000000000000 then shl64 w1 2 &&& MASK_EXP    -- 85–87
+    else x_exp
+  let C1w1 := w1 &&& MASK_COEFF                                                        -- 89, 90
+  let exp := asI32 (sub64 (x_exp >>> 49) 6176)                                         -- 91
+  let fmt : Bytes := writeChar [] (if x_sign != 0 then 45 else 43)                     -- 94
+  match writeCoeffOf w0 w1 C1w1 fmt with                                               -- 96–160
+  | none => none
+  | some fmt => writeExp upperExp exp fmt                                              -- 162–201
+
 end Fmt
 
 open Fmt in
@@ -319,48 +397,11 @@ open Fmt in
 `none` = the code would panic. -/
 def fmtCode (upperExp : Bool) (w0 w1 : Nat) : Option Bytes :=
   if w1 &&& MASK_SPECIAL == MASK_SPECIAL then                                          -- 49
-    if w1 &&& MASK_NAN == MASK_NAN then                                                -- 51
-      if w1 &&& MASK_SNAN == MASK_SNAN then                                            -- 52
-        -- `(x.w[1] as BID_SINT64) < 0`: the top bit
-        if w1 ≥ 2 ^ 63 then some [45, 83, 78, 97, 78] else some [43, 83, 78, 97, 78]   -- 54  "-SNaN" "+SNaN"
-      else
-        if w1 ≥ 2 ^ 63 then some [45, 78, 97, 78] else some [43, 78, 97, 78]           -- 57  "-NaN" "+NaN"
-    else
-      if w1 &&& MASK_SIGN == 0 then some [43, 73, 110, 102] else some [45, 73, 110, 102]   -- 60  "+Inf" "-Inf"
+    some (fmtSpecial w1)                                                               -- 50–61
   else if (w1 &&& MASK_COEFF == 0) && (w0 == 0) then                                   -- 62
-    let fmt : Bytes :=
-      if upperExp then (if w1 &&& MASK_SIGN == MASK_SIGN then [45, 48, 69] else [43, 48, 69])      -- 65  "-0E" "+0E"
-      else (if w1 &&& MASK_SIGN == MASK_SIGN then [45, 48, 101] else [43, 48, 101])                -- 67  "-0e" "+0e"
-    let exp := asI32 (sub64 ((w1 &&& MASK_EXP) >>> 49) 6176)                           -- 71
-    let exp :=
-      if exp > (((0x5ffe >>> 1 : Nat) : Int) - 6176) then                              -- 73
-        wrapI32 (asI32 ((shl64 w1 2 &&& MASK_EXP) >>> 49) - 6176)                      -- 74
-      else exp
-    let fmt := if exp ≥ 0 then writeChar fmt 43 else fmt                               -- 76–78
-    some (fmt ++ i32ToString exp)                                                      -- 79
+    some (fmtZero upperExp w1)                                                         -- 63–79
   else
-    let x_sign := w1 &&& MASK_SIGN                                                     -- 82
-    let x_exp := w1 &&& MASK_EXP                                                       -- 83
-    let x_exp :=
-      if w1 &&& 0x6000000000000000 == 0x6000000000000000 then shl64 w1 2 &&& MASK_EXP  -- 85–87
-      else x_exp
-    let C1w1 := w1 &&& MASK_COEFF                                                      -- 89
-    let C1w0 := w0                                                                     -- 90
-    let exp := asI32 (sub64 (x_exp >>> 49) 6176)                                       -- 91
-    let fmt : Bytes := writeChar [] (if x_sign != 0 then 45 else 43)                   -- 94
-    let coeff : Option Bytes :=
-      if C1w1 > 0x0001ed09bead87c0                                                     -- 99
-          || (C1w1 == 0x0001ed09bead87c0 && C1w0 > 0x378d8e63ffffffff)                 -- 100
-          || (w1 &&& 0x6000000000000000 == 0x6000000000000000)                         -- 101
-          || (C1w1 == 0 && C1w0 == 0) then
-        some (writeChar fmt 48)                                                        -- 102
-      else
-        match coeffMidi C1w0 C1w1 with                                                 -- 129–153
-        | none => none
-        | some MiDi => writeCoeff MiDi fmt                                             -- 155–159
-    match coeff with
-    | none => none
-    | some fmt => writeExp upperExp exp fmt                                            -- 162–201
+    fmtFinite upperExp w0 w1                                                           -- 80–201
 
 /-- The formatter under the harness's operation names: `display`, `debug` and `upperexp` (`{}`, `{:?}`, `{:E}`)
 call `bid128_to_string` with `upperExp = true`, `lowerexp` (`{:e}`) with `false`; `bits = w1 · 2^64 + w0`.
